@@ -123,11 +123,11 @@ func genAndRun(c *hx.Ctx, w *world, i int) {
 		n = 7
 	}
 	p := roles(perm(c, n))
-	modes := []string{"clean", "async", "async", "byz", "byz", "forge", "verified", "no-equivocation", "no-empty", "byz-async"}
+	modes := []string{"clean", "async", "partition", "byz", "byz", "forge", "verified", "no-equivocation", "no-empty", "byz-async", "partition", "async"}
 	mode := modes[i%len(modes)]
 	nbyz := 0
 	switch mode {
-	case "clean", "async":
+	case "clean", "async", "partition":
 	default:
 		nbyz = 1 + c.Intn(int(p.C))
 	}
@@ -149,6 +149,10 @@ func genAndRun(c *hx.Ctx, w *world, i int) {
 		if nw.honest(idx) {
 			honest = append(honest, idx)
 		}
+	}
+	if mode == "partition" {
+		genPartition(c, r, honest, i)
+		return
 	}
 	timers := mode == "async" || mode == "byz-async" || mode == "byz" && c.Intn(2) == 0
 	steps := 50 + c.Intn(70)
@@ -212,4 +216,56 @@ func min(a, b int) int {
 		return a
 	}
 	return b
+}
+
+// genPartition: no faulty peer, the two first proposers both propose, and the network is split in
+// two groups that only hear their own members (one group per proposal); inside a group everything
+// is delivered and every handler runs; proposal and commit timeouts fire. Every side condition of
+// the partial theorem holds in such a run, so no two nodes may seal different blocks.
+func genPartition(c *hx.Ctx, r *runner, honest []uint32, i int) {
+	nw := r.nw
+	p := nw.p
+	pa, pb := p.Proposers[0], p.Proposers[1]
+	group := map[uint32]int{pa: 0, pb: 1}
+	for _, n := range honest {
+		if _, ok := group[n]; !ok {
+			group[n] = c.Intn(2)
+		}
+	}
+	r.step(Event{Kind: "propose", Node: pa})
+	r.step(Event{Kind: "propose", Node: pb})
+	delivered := map[string]bool{}
+	steps := 120 + c.Intn(80)
+	for s := 0; s < steps; s++ {
+		node := honest[c.Intn(len(honest))]
+		switch x := c.Intn(100); {
+		case x < 40:
+			r.step(Event{Kind: "proc", Node: node})
+		case x < 75:
+			// the oldest packet of the node's group it has not received yet
+			for k, pk := range nw.net {
+				key := fmt.Sprintf("%d/%d", node, k)
+				if group[pk.From] == group[node] && pk.From != node && !delivered[key] {
+					delivered[key] = true
+					r.step(Event{Kind: "net", Node: node, Pkt: k})
+					break
+				}
+			}
+		case x < 85:
+			r.step(Event{Kind: "act", Node: node})
+		case x < 95:
+			r.step(Event{Kind: "timer", Node: node, Timer: 0})
+		default:
+			r.step(Event{Kind: "timer", Node: node, Timer: 3})
+		}
+	}
+	for round := 0; round < 3; round++ {
+		for _, node := range honest {
+			for k := 0; k < 4; k++ {
+				r.step(Event{Kind: "proc", Node: node})
+			}
+			r.step(Event{Kind: "act", Node: node})
+		}
+	}
+	r.finish(c, fmt.Sprintf("partition/%d", i), false)
 }
